@@ -160,7 +160,7 @@ const PROBE_LIST: &[&str] = &[
     "swarm_history_len_1_3",
     "swarm_history_len_4_12",
     "swarm_history_len_13_48",
-    "swarm_history_len_200_600_on_1_or_2_registers",
+    "swarm_history_long_lived_200_plus_operations",
     "swarm_registers_1_2",
     "swarm_registers_3_5",
     "swarm_registers_6_8",
@@ -324,7 +324,7 @@ fn probes() -> &'static P {
         len_s: pi("swarm_history_len_1_3"),
         len_m: pi("swarm_history_len_4_12"),
         len_l: pi("swarm_history_len_13_48"),
-        len_xl: pi("swarm_history_len_200_600_on_1_or_2_registers"),
+        len_xl: pi("swarm_history_long_lived_200_plus_operations"),
         regs_a: pi("swarm_registers_1_2"),
         regs_b: pi("swarm_registers_3_5"),
         regs_c: pi("swarm_registers_6_8"),
@@ -1229,6 +1229,7 @@ struct Gen<'a> {
     rng: &'a mut Rng,
     nregs: usize,
     overflow_ok: bool,
+    deep: bool,
     shadow: [u64; NREGS],
     hshadow: [(u8, [u8; 7]); NHANDS],
 }
@@ -1357,7 +1358,8 @@ impl<'a> Gen<'a> {
     }
 
     fn tokens(&mut self) -> (Vec<Tok>, Vec<u8>) {
-        let n = match self.rng.below(8) {
+        let n = match self.rng.below(if self.deep { 9 } else { 8 }) {
+            8 => 61 + self.rng.usize_below(240),
             0 => 0,
             1 => 1,
             2..=4 => 2 + self.rng.usize_below(6),
@@ -1431,10 +1433,11 @@ impl World for C15 {
         let mix = rng.usize_below(5);
         let overflow_ok = rng.chance(2, 5);
         // one run in 256 is a long-lived history on one or two sets
-        let xl = rng.below(256) == 0;
-        let nregs = if xl { 1 + rng.usize_below(2) } else { nregs };
+        let deep = crate::sim::depth() >= 1 && rng.chance(1, 2);
+        let xl = if deep { rng.below(8) == 0 } else { rng.below(256) == 0 };
+        let nregs = if xl { 1 + rng.usize_below(if deep { 4 } else { 2 }) } else { nregs };
         let len = if xl {
-            200 + rng.usize_below(401)
+            200 + rng.usize_below(if deep { 801 } else { 401 })
         } else {
             match rng.below(3) {
                 0 => 1 + rng.usize_below(3),
@@ -1460,7 +1463,7 @@ impl World for C15 {
         } else {
             p.regs_c
         });
-        let mut g = Gen { rng, nregs, overflow_ok, shadow: [0; NREGS], hshadow: [(0, [BLANK_SLOT; 7]); NHANDS] };
+        let mut g = Gen { rng, nregs, overflow_ok, deep, shadow: [0; NREGS], hshadow: [(0, [BLANK_SLOT; 7]); NHANDS] };
         let mut ops = Vec::with_capacity(len);
         while ops.len() < len {
             // the first operation of a run always builds something
